@@ -200,6 +200,14 @@ class RWorld(World):
 
             pidpath = property(lambda self: self.path / "pid")
 
+            def __setattr__(self, k, v):
+                Base.__setattr__(self, k, v)
+                if k == "state" and v == JobState.WAITING and "s0" not in self.__dict__:
+                    # what the job directory shows when the first segment of aio_submit runs
+                    ident = self.js["ident"]
+                    pid = disk.pid(ident)
+                    object.__setattr__(self, "s0", {"done": disk.done(ident), "alive": pid is not None and disk.alive(pid)})
+
             async def aio_process(self):
                 had = self._process
                 p = await CommandLineJob.aio_process(self)  # the real function
@@ -289,8 +297,42 @@ class Run:
         self.pending = list(range(len(spec["jobs"])))
         self.waited = False
         self.crashes = 0
+        self.fails = []  # implementation-only monitor failures: (key, what)
+
+    def monitor_incarnation(self, final):
+        """the property on what this scheduler incarnation did (called when it dies and at the end)"""
+        w, disk = self.w, self.shared.disk
+        for j, job in w.jobs.items():
+            s0 = job.__dict__.get("s0")
+            if job.launches > 1:
+                self.fails.append(("launched-twice", f"job {j} was launched {job.launches} times by one scheduler"))
+            if s0 is None:
+                continue
+            if s0["done"] and job.launches > 0:
+                self.fails.append(("restart-relaunched-finished-job",
+                                   f"run {self.crashes + 1}: job {j} (identifier {job.js['ident']}) was launched although its success marker existed when it was submitted"))
+            if s0["alive"] and not s0["done"] and job.launches > 0:
+                self.fails.append(("restart-relaunched-running-job",
+                                   f"run {self.crashes + 1}: job {j} (identifier {job.js['ident']}) was launched although its process was running (pid file) when it was submitted"))
+            if s0["alive"] and not job.adopted:
+                self.fails.append(("running-job-not-adopted", f"run {self.crashes + 1}: job {j}: live process in the pid file but no adoption"))
+        if final:
+            for j, job in w.jobs.items():
+                t = w.tasks.get(j)
+                if t is None:
+                    continue
+                if not t.done():
+                    self.fails.append(("restart-not-finishing", f"last run: nothing left to do but job {j} is {job.state.name}"))
+                elif t.exception() is None:
+                    r = t.result().name
+                    if (r == "DONE") != disk.done(job.js["ident"]) and r in ("DONE",):
+                        self.fails.append(("done-without-marker", f"last run: job {j} ended DONE but its success marker does not exist"))
+            for i, d in disk.dirs.items():
+                if d["succ"] > 1:
+                    self.fails.append(("body-succeeded-twice", f"identifier {i}: {d['succ']} successful executions"))
 
     def restart(self):
+        self.monitor_incarnation(False)
         self.w.close()
         self.shared.disk.crash()
         self.w = RWorld(self.spec, self.shared)
@@ -388,7 +430,8 @@ def run_random(spec, rng, max_events=3000, max_crashes=2, crash_p=0.03):
             run.apply(ev)
             events.append(ev)
             obs.append(run.observe())
-        return events, obs, quiescent
+        run.monitor_incarnation(quiescent)
+        return events, obs, quiescent, list(run.fails)
     finally:
         run.close()
 
@@ -400,6 +443,7 @@ def run_replay(spec, events):
         for ev in events:
             run.apply(ev)
             obs.append(run.observe())
-        return obs
+        run.monitor_incarnation(False)
+        return obs, list(run.fails)
     finally:
         run.close()
